@@ -1322,6 +1322,14 @@ def install(it):
     # logging
     E["logging.getLogger"] = Native("getLogger", lambda it_, a, k: Opaque("logger", "log"))
     # collections
+    def _timedelta(it_, a, k):
+        # A-time: a time span is an integer tick count; timedelta(seconds=x) is x ticks
+        if not a and set(k) == {"seconds"}:
+            return k["seconds"]
+        if not k and (not a or (len(a) == 1 and a[0] == 0)):
+            return 0
+        raise Unsupported("timedelta(...) other than timedelta(seconds=x)")
+    E["datetime.timedelta"] = Native("timedelta", _timedelta)
     E["collections.deque"] = Native("deque", _deque)
     E["collections.OrderedDict"] = Native("OrderedDict", lambda it_, a, k: _dict(it_, a, k))
     E["weakref.WeakKeyDictionary"] = Native("WeakKeyDictionary", lambda it_, a, k: _dict(it_, a, k))
